@@ -347,6 +347,20 @@ class HashDomain(ExactCollections, Domain):
         if is_self_attr(node, "clients"):
             return Opaque("clients")
         if is_self_attr(node):
+            if not state.has("self." + node.attr) and self.prog is not None:
+                # a constant defined in the class body (a batch limit, a flag), unless __init__ rebinds it
+                cls = self.prog.cls("HashClient")
+                ca = cls.attrs.get(node.attr)
+                init = cls.methods.get("__init__")
+                rebound = init is not None and any(is_self_attr(t, node.attr) and isinstance(t.ctx, ast.Store) for t in ast.walk(init.node) if isinstance(t, ast.Attribute))
+                if ca is not None and not rebound:
+                    from .model import fold, NotConst
+                    from .colls import lift_value
+
+                    try:
+                        return lift_value(fold(ca, cls.module))
+                    except NotConst:
+                        pass
             return state.get("self." + node.attr, TOP)
         if isinstance(objval, Opaque) and objval.tag.startswith("client:"):
             if node.attr == "server":
@@ -420,12 +434,16 @@ class HashDomain(ExactCollections, Domain):
 
 def batching_rows(prog, hc, r3, r4, tier="quick"):
     """C12.R3 (batching and dispatch) and R4 (merge), decided on what get_many / gets_many / set_many / delete_many do
-    with three symbolic keys under every routing pattern over two servers (and 'no server left')."""
+    with three symbolic keys under every routing pattern over two servers (and 'no server left').
+
+    A comparison of a batch size with a constant far above three (a chunk size, a fast-path threshold) is not decided
+    from three keys: such a path is imprecise.  The constants met are remembered, and the row is then decided on both
+    sides of them - the same scenario with the comparison taken at face value (three is below the threshold) plus a
+    scenario with threshold + 1 keys on one server - provided that fits the exact collections (<= 30 keys)."""
     from .colls import GenV, new_object
     from .rules_C05 import Val
 
     ALL = [Opaque("K1"), Opaque("K2"), Opaque("K3")]
-    I = {k.tag: Opaque("inner:" + k.tag) for k in ALL}
     routes = [
         {"K1": "A", "K2": "B", "K3": "A"},
         {"K1": "B", "K2": "B", "K3": "A"},
@@ -443,18 +461,12 @@ def batching_rows(prog, hc, r3, r4, tier="quick"):
             {"K1": "A", "K2": "B", "K3": None},
             {"K1": "A", "K2": "B"},
         ]
-    K = list(ALL)
 
-    def servers_in_order(route):
-        out = []
-        for k in K:
-            if route[k.tag] is not None and route[k.tag] not in out:
-                out.append(route[k.tag])
-        return out
-
-    def run(mname, route, oneshot=False, fails=(), gets=None, extra=()):
+    def run(mname, K, route, lift, oneshot=False, fails=(), gets=None, extra=()):
         f = prog.method(hc, mname)
         dom = HashDomain(prog, f, route, fails)
+        if lift:
+            dom.scenario_limit = 10 ** 9
         env = {}
         for p in f.params:
             if p.name == "self":
@@ -471,9 +483,10 @@ def batching_rows(prog, hc, r3, r4, tier="quick"):
                 env[p.name] = Const(bool(gets))
             else:
                 env[p.name] = Val("arg:" + p.name)
-        return f, Interp(dom, f.node, prog).run(Env(env))
+        return f, Interp(dom, f.node, prog).run(Env(env)), dom
 
-    def check(rule, f, outs, what, construct, want_runs, want_value, why):
+    def judge(outs, want_runs, want_value):
+        """-> ('ok' | 'fail' | 'vague', problems)"""
         rets, excs = outs.of("ret"), outs.of("exc")
         problems, vague = [], False
         if excs or not rets:
@@ -484,46 +497,103 @@ def batching_rows(prog, hc, r3, r4, tier="quick"):
             runs = s.get("#runs", ())
             val = deref(v, s)
             if want_runs is not None and not _same_runs(runs, want_runs):
-                problems.append("the safe runner is called as %s; expected %s" % (_runs_txt(runs), _runs_txt(want_runs)))
+                problems.append("the safe runner is called as %s; expected %s" % (_runs_txt(runs), _runs_txt(want_runs[1]) + " (or the same deletions batched per server)" if isinstance(want_runs, tuple) else _runs_txt(want_runs)))
             if want_value is not None and not _same_value(val, want_value):
                 problems.append("it returns %s; expected %s" % (_d(val), _d(want_value)))
-        if not problems:
-            rule.ok(what)
-        elif vague:
-            rule.undecided(construct, "%s -- %s" % (what, "; ".join(problems[:2])))
-        else:
-            rule.fail(construct, "%s: %s (%s)" % (what, "; ".join(dict.fromkeys(problems)), why), fn=f, node=f.node)
+        problems = list(dict.fromkeys(problems))
+        return ("ok" if not problems else ("vague" if vague else "fail")), problems
 
-    n = 0
-    for route in routes:
-        K[:] = [k for k in ALL if k.tag in route]
-        rt = ", ".join("%s->%s" % (k, v or "no server") for k, v in sorted(route.items()))
-        order = servers_in_order(route)
+    def scenario(K, route, lift, emit):
+        """All rows of one scenario (keys K, routing `route`); emit(rule, rowkey, f, outs, dom, what, construct,
+        want_runs, want_value, why) for each."""
+        I = {k.tag: Opaque("inner:" + k.tag) for k in K}
+        rt = ", ".join("%s->%s" % (k, v or "no server") for k, v in sorted(route.items())) if len(K) <= 4 else "%d keys, all on server %s" % (len(K), route[K[0].tag])
+        order = []
+        for k in K:
+            if route[k.tag] is not None and route[k.tag] not in order:
+                order.append(route[k.tag])
         for mname, gets in (("get_many", False), ("get_many", True), ("gets_many", None)):
             meth = "gets_many" if (gets or mname == "gets_many") else "get_many"
             for oneshot in (False, True):
-                n += 1
-                f, outs = run(mname, route, oneshot=oneshot, gets=gets)
+                f, outs, dom = run(mname, K, route, lift, oneshot=oneshot, gets=gets)
                 want_runs = [("_safely_run_func", (Opaque("client:" + srv), BoundCall(Opaque("client:" + srv), Const(meth)), DictV(()), TupleV(tuple(I[k.tag] for k in K if route[k.tag] == srv))), ()) for srv in order]
                 want_value = DictV(tuple((I[k.tag], Opaque("value:%s:%s" % (route[k.tag], I[k.tag].tag))) for k in K if route[k.tag] is not None))
                 what = "HashClient.%s(%s%s) with routing %s" % (mname, "gets=%s, " % gets if gets is not None else "", "one-shot keys" if oneshot else "%d key(s)" % len(K), rt)
-                check(r3, f, outs, what + ": one %s call per server with exactly its own keys" % meth, "HashClient.%s:batches" % mname, want_runs, None, "each key must be sent once, to the client of the server its own routing call returned, under its inner key; a key without server is skipped")
-                check(r4, f, outs, what + ": the answers of all servers are merged", "HashClient.%s:merge" % mname, None, want_value, "the result is the union of the per-server answers")
+                # in the large scenario the requests may be split (a chunked multiget is legitimate): what must hold
+                # there is the merged answer; who is asked for what is judged on the small scenarios
+                emit(r3, (mname, gets, oneshot, "batches"), f, outs, dom, what + ": one %s call per server with exactly its own keys" % meth, "HashClient.%s:batches" % mname, want_runs if len(K) <= 4 else None, None, "each key must be sent once, to the client of the server its own routing call returned, under its inner key; a key without server is skipped")
+                emit(r4, (mname, gets, oneshot, "merge"), f, outs, dom, what + ": the answers of all servers are merged", "HashClient.%s:merge" % mname, None, want_value, "the result is the union of the per-server answers")
         for fails in ((), ("inner:K3",), ("inner:K1", "inner:K2")):
-            n += 1
-            f, outs = run("set_many", route, fails=fails)
+            f, outs, dom = run("set_many", K, route, lift, fails=fails)
             want_runs = [("_safely_run_set_many", (Opaque("client:" + srv), DictV(tuple((I[k.tag], Opaque("val:" + k.tag)) for k in K if route[k.tag] == srv))), ()) for srv in order]
             unrouted = [I[k.tag] for k in K if route[k.tag] is None]
             refused = [I[k.tag] for srv in order for k in K if route[k.tag] == srv and I[k.tag].tag in fails]
             what = "HashClient.set_many(%d item(s)) with routing %s, refused by the servers: %s" % (len(K), rt, list(fails) or "none")
-            check(r3, f, outs, what + ": one set_many per server with exactly its own items", "HashClient.set_many:batches", want_runs, None, "each item must be sent once, to the client of the server its own routing call returned, under its inner key with its own value")
-            check(r4, f, outs, what + ": failed keys = keys without server + keys the servers refused", "HashClient.set_many:merge", None, TupleV(tuple(unrouted + refused)), "set_many returns every key that was not stored")
+            emit(r3, ("set_many", fails, "batches"), f, outs, dom, what + ": one set_many per server with exactly its own items", "HashClient.set_many:batches", want_runs if len(K) <= 4 else None, None, "each item must be sent once, to the client of the server its own routing call returned, under its inner key with its own value")
+            emit(r4, ("set_many", fails, "merge"), f, outs, dom, what + ": failed keys = keys without server + keys the servers refused", "HashClient.set_many:merge", None, TupleV(tuple(unrouted + refused)), "set_many returns every key that was not stored")
         for oneshot in (False, True):
-            n += 1
-            f, outs = run("delete_many", route, oneshot=oneshot)
+            f, outs, dom = run("delete_many", K, route, lift, oneshot=oneshot)
             want_runs = [("_safely_run_func", (Opaque("client:" + route[k.tag]), BoundCall(Opaque("client:" + route[k.tag]), Const("delete")), Const(False), I[k.tag]), ()) for k in K if route[k.tag] is not None]
             what = "HashClient.delete_many(%s) with routing %s" % ("one-shot keys" if oneshot else "%d key(s)" % len(K), rt)
-            check(r4, f, outs, what + ": delete runs once per key, on that key's server", "HashClient.delete_many:visits", want_runs, Const(True), "delete_many runs the delete command exactly once for every key")
+            emit(r4, ("delete_many", oneshot, "visits"), f, outs, dom, what + ": delete runs once per key, on that key's server", "HashClient.delete_many:visits", ("deletes", want_runs), Const(True), "delete_many runs the delete command exactly once for every key")
+
+    lifted_cache = {}
+
+    def lifted(K, route, ident):
+        """rowkey -> (status, problems, what) of the scenario with size comparisons taken at face value."""
+        if ident not in lifted_cache:
+            res = {}
+
+            def collect(rule, rowkey, f, outs, dom, what, construct, want_runs, want_value, why):
+                st, problems = judge(outs, want_runs, want_value)
+                res[rowkey] = (st, problems, what)
+
+            scenario(K, route, True, collect)
+            lifted_cache[ident] = res
+        return lifted_cache[ident]
+
+    counter = [0]
+
+    def make_emit(K, route, ri):
+        def emit(rule, rowkey, f, outs, dom, what, construct, want_runs, want_value, why):
+            if rowkey[-1] in ("batches", "visits"):
+                counter[0] += 1
+            st, problems = judge(outs, want_runs, want_value)
+            if st == "ok" and not dom.thresholds:
+                rule.ok(what)
+                return
+            if st == "fail":
+                rule.fail(construct, "%s: %s (%s)" % (what, "; ".join(problems), why), fn=f, node=f.node)
+                return
+            ths = sorted(t for t in (dom.thresholds or ()) if t + 1 <= 30)
+            if ths and len(ths) == len(dom.thresholds):
+                # both sides of the size thresholds met on the way: this scenario with three < threshold taken as it
+                # is, and threshold + 1 keys on one server
+                verdicts = [lifted(K, route, ("small", ri)).get(rowkey)]
+                n = ths[-1] + 1
+                bigK = [Opaque("K%d" % (i + 1)) for i in range(n)]
+                verdicts.append(lifted(bigK, {k.tag: "A" for k in bigK}, ("big", n)).get(rowkey))
+                if all(v is not None for v in verdicts):
+                    bad = [v for v in verdicts if v[0] == "fail"]
+                    if bad:
+                        rule.fail(construct, "%s: %s (%s)" % (bad[0][2], "; ".join(bad[0][1][:3]), why), fn=f, node=f.node)
+                        return
+                    if all(v[0] == "ok" for v in verdicts):
+                        rule.ok(what + " [decided on both sides of the size threshold(s) %s]" % ths)
+                        return
+                    problems = [p for v in verdicts for p in v[1]] or problems
+            if st == "ok":
+                # right on this side of a size threshold, the other side out of reach of the exact collections
+                rule.undecided(construct, "%s -- a batch size is compared with %s: what happens beyond that size is not explored" % (what, sorted(dom.thresholds)))
+                return
+            rule.undecided(construct, "%s -- %s" % (what, "; ".join(problems[:2])))
+
+        return emit
+
+    for ri, route in enumerate(routes):
+        K = [k for k in ALL if k.tag in route]
+        scenario(K, route, False, make_emit(K, route, ri))
+    n = counter[0]
     # two (server_key, key) pairs with the same inner key on different servers: both servers are asked for it
     for mname in ("get_many", "gets_many"):
         n += 1
@@ -546,12 +616,38 @@ def batching_rows(prog, hc, r3, r4, tier="quick"):
         outs = Interp(dom, f.node, prog).run(Env(env))
         meth = "gets_many" if mname == "gets_many" else "get_many"
         want_runs = [("_safely_run_func", (Opaque("client:" + srv), BoundCall(Opaque("client:" + srv), Const(meth)), DictV(()), TupleV((Opaque("inner:X"),))), ()) for srv in ("A", "B")]
-        check(r3, f, outs, "HashClient.%s([(s1, k), (s2, k)]) with s1->A, s2->B: each server is asked for k" % mname, "HashClient.%s:batches" % mname, want_runs, None, "two pairs that share the inner key but are routed to different servers are two requests, as two single-key calls would be")
+        st, problems = judge(outs, want_runs, None)
+        what = "HashClient.%s([(s1, k), (s2, k)]) with s1->A, s2->B: each server is asked for k" % mname
+        if st == "ok":
+            r3.ok(what)
+        elif st == "vague":
+            r3.undecided("HashClient.%s:batches" % mname, "%s -- %s" % (what, "; ".join(problems[:2])))
+        else:
+            r3.fail("HashClient.%s:batches" % mname, "%s: %s (two pairs that share the inner key but are routed to different servers are two requests, as two single-key calls would be)" % (what, "; ".join(problems)), fn=f, node=f.node)
     r3.count("batching scenarios", n)
     r3.floor("batching scenarios", n, 40)
 
 
+def _deletes(runs):
+    """The (client, inner key) pairs a list of runner calls deletes - one `delete` per key or one `delete_many` per
+    batch alike; None if a call is something else."""
+    out = []
+    for n, a, k in runs:
+        if n != "_safely_run_func" or len(a) != 4 or k or not isinstance(a[1], BoundCall) or a[1].obj != a[0]:
+            return None
+        if a[1].attr == Const("delete") and a[2] == Const(False):
+            out.append((a[0], a[3]))
+        elif a[1].attr in (Const("delete_many"), Const("delete_multi")) and isinstance(a[3], TupleV):
+            out += [(a[0], x) for x in a[3].items]
+        else:
+            return None
+    return sorted(out, key=str)
+
+
 def _same_runs(got, want):
+    if isinstance(want, tuple) and want and want[0] == "deletes":
+        g = _deletes(got)
+        return g is not None and g == _deletes(want[1])
     if len(got) != len(want):
         return False
     for (gn, ga, gk), (wn, wa, wk) in zip(got, want):
